@@ -154,7 +154,17 @@ void VRun::exec(const VOpRec &o) {
                 static const double EXT[] = { 1.7976931348623157e308, -1.7976931348623157e308, 2.2250738585072014e-308, 4.9e-324, -7.0e-320, 9.999999999999999e22, 0.99999999999999989, 99999.999999999985,
                     1e15, 1e16, 123456789012345680000.0, 0.5, 0.05, 5e-7, 9.5, 999.5, 1e-300, 8.98846567431158e307, 4503599627370496.0, 9007199254740993.0, 0.1, 1.0 / 3.0 };
                 val = EXT[r.below(sizeof EXT / sizeof EXT[0])];
-                if (su > 0) { static const double ES[] = { 1e-310, 1e300, 0.5, 9.5, 0.095, 1e-20, 99.9, 1.0 }; su = r.chance(1, 2) ? std::fabs(val) * 1e-3 : ES[r.below(8)]; if (!(su > 0)) su = 4.9e-324; }
+                // half of them: a random bit pattern instead of a listed constant -- subnormals of every width (the longest fraction-digit
+                // strings the conversion has to hold) or any finite exponent with a random mantissa
+                if (r.chance(2, 3)) {
+                    uint64_t bits;
+                    if (r.chance(2, 3)) { unsigned w = (unsigned) r.range(1, 52); bits = (r.next() & ((1ull << w) - 1)) | (1ull << (w - 1)) | (r.chance(3, 4) ? 1ull : 0ull); }
+                    else bits = ((uint64_t) r.below(2047) << 52) | (r.next() & ((1ull << 52) - 1));
+                    if (r.chance(1, 3)) bits |= 1ull << 63;
+                    memcpy(&val, &bits, sizeof val); g_stats.inc("value.extreme_number_random_bits");
+                }
+                if (su > 0) { static const double ES[] = { 1e-310, 1e300, 0.5, 9.5, 0.095, 1e-20, 99.9, 1.0 }; su = r.chance(1, 2) ? std::fabs(val) * 1e-3 : ES[r.below(8)]; if (!(su > 0)) su = 4.9e-324;
+                    if (r.chance(1, 6)) { unsigned w = (unsigned) r.range(1, 52); uint64_t sb = (r.next() & ((1ull << w) - 1)) | (1ull << (w - 1)) | 1ull; memcpy(&su, &sb, sizeof su); } }
             }
             int rc; bool bad_arg = su < 0;
             if (o.k == V_INIT_NUMB) { int scale = extreme ? (int) r.range(-320, 340) : (int) r.range(-3, 6), mlz = r.chance(1, 10) ? -1 : (int) r.range(0, 6); bad_arg = bad_arg || mlz < 0; rc = fe.call("cif_value_init_numb", [&]() { return cif_value_init_numb(t.v, val, su < 0 ? su : (su > 0 ? su : 0.0), scale, mlz); }); }
